@@ -127,6 +127,19 @@ C03_PlotProfile(g, full, prof) ==
             IN  prof[c] = RMul(RHalf, RAdd(full[c], full[P]))
        [] OTHER -> TRUE
 
+\* open boundaries: the change of the domain integral equals the net flux through the boundary
+\* faces:  sum_P V_P (M phi)_P  =  sum over boundary faces of  +-area * flux(phi),
+\* flux = the explicit face flux computed by the code's own gradient / mean functions
+BoundaryFluxSum(g, flux) ==
+  RSumSet({id \in FaceIds(g) : IsBoundaryFace(g, id[1], id[2])},
+          LAMBDA id :
+            LET a == id[1]  f == id[2]
+                c == [f EXCEPT ![a] = IF f[a] = 0 THEN 1 ELSE f[a]]       \* adjacent interior cell
+                area == FaceAreaGeo(g, a, c, f[a])
+            IN  RMul(IF f[a] = 0 THEN RNeg(area) ELSE area, flux[id]))
+C01_OpenMatrix(g, V, M, phi, flux) ==
+  RSumSet(Interior(g), LAMBDA P : RMul(V[P], MApplyRow(M, phi, P))) = BoundaryFluxSum(g, flux)
+
 \* midpoint-rule cell volume of SphericalGrid3D (the weight its operators divide by)
 MidVolume(g) == [c \in AllCells(g) |->
    IF c \in Interior(g)
